@@ -375,6 +375,11 @@ package server
 //@ func (*peer).updatePrefixLimitConfig
 //@   claims at-return
 //@   at-return requires ret1 == nil ==> called(carrySessionState)
+// the copy: an entry whose family the running session has ends up with that family's negotiated state (the flags
+// forwardingPreservedFamilies / llgrFamilies read)
+//@ func carrySessionState
+//@   claims step
+//@   loop 1 step o.State.Family == dst[i].State.Family ==> dst[i].MpGracefulRestart.State.Received == o.MpGracefulRestart.State.Received && dst[i].MpGracefulRestart.State.Enabled == o.MpGracefulRestart.State.Enabled && dst[i].LongLivedGracefulRestart.State.Enabled == o.LongLivedGracefulRestart.State.Enabled
 
 //@ func (*BgpServer).handleFSMMessage$2$1
 //@   claims at-call
